@@ -372,6 +372,23 @@ func init() {
 			return strings.Join(parts, ",")
 		}))
 	}
+	// direct predicate: FixComponents is a pure function of glyph and map (the model's
+	// fixComponents, C11_components) — the input glyphs are the same afterwards and a second call
+	// on them gives the same result
+	ops["glyf.fixpure"] = func(f Fields) string {
+		out := ops["glyf.fix"](f)
+		p := strings.Split(out, "|")
+		if len(p) != 4 {
+			return out
+		}
+		if i := strings.IndexByte(p[1], ':'); i >= 0 {
+			p[1] = p[1][:i]
+		}
+		if i := strings.IndexByte(p[2], ':'); i >= 0 {
+			p[2] = p[2][:i]
+		}
+		return p[1] + "|" + p[2]
+	}
 	ops["glyf.fix"] = func(f Fields) string {
 		return canonPanic(guard(func() string {
 			gg := glyfParseGlyphs(f["gs"])
@@ -383,13 +400,57 @@ func init() {
 					m[glyph.ID(a)] = glyph.ID(b)
 				}
 			}
+			// FixComponents must return new glyphs and leave its input alone: the original list
+			// is shown again after the call, its Components() and its encoding are compared with
+			// those taken before, and a second call on the original must give the first result.
+			before := glyfShowGlyphs(gg)
+			enc0 := gg.Encode()
+			comps0 := glyfCompsString(gg)
 			out := make(glyf.Glyphs, len(gg))
 			for i, g := range gg {
 				out[i] = g.FixComponents(m)
 			}
-			return glyfShowGlyphs(out)
+			res1 := glyfShowGlyphs(out)
+			after := glyfShowGlyphs(gg)
+			state := "input-unchanged"
+			enc1 := gg.Encode()
+			switch {
+			case after != before:
+				state = "input-changed:" + after
+			case glyfCompsString(gg) != comps0:
+				state = "input-components-changed"
+			case enc1.LocaFormat != enc0.LocaFormat || !bytes.Equal(enc1.LocaData, enc0.LocaData) || !bytes.Equal(enc1.GlyfData, enc0.GlyfData):
+				state = "input-encoding-changed"
+			}
+			out2 := make(glyf.Glyphs, len(gg))
+			for i, g := range gg {
+				out2[i] = g.FixComponents(m)
+			}
+			again := "again-same"
+			if r2 := glyfShowGlyphs(out2); r2 != res1 {
+				again = "again-differs:" + r2
+			}
+			return res1 + "|" + state + "|" + again + "|comps=" + glyfCompsString(out)
 		}))
 	}
+}
+
+// glyfCompsString shows Components() of every glyph: nil, or the glyph indices.
+func glyfCompsString(gg glyf.Glyphs) string {
+	parts := make([]string, len(gg))
+	for i, g := range gg {
+		l := g.Components()
+		if l == nil {
+			parts[i] = "nil"
+			continue
+		}
+		s := make([]string, len(l))
+		for j, x := range l {
+			s[j] = fmt.Sprint(int(x))
+		}
+		parts[i] = "[" + strings.Join(s, ".") + "]"
+	}
+	return strings.Join(parts, ",")
 }
 
 // ---------------------------------------------------------------- generators
@@ -822,7 +883,18 @@ func glyfSetCase(c *Ctx, gg glyf.Glyphs, wf bool) {
 		for i := 0; i < r.Range(0, 6); i++ {
 			m = append(m, fmt.Sprintf("%d:%d", r.Intn(len(gg)), r.Intn(65536)))
 		}
+		// map the component ids that really occur, to values that are themselves keys (a second
+		// application of the map would move them again) and never to themselves
+		for _, g := range gg {
+			for _, id := range g.Components() {
+				if r.Chance(2, 3) {
+					to := (int(id) + 1 + r.Intn(3)) % 65536
+					m = append(m, fmt.Sprintf("%d:%d", int(id), to), fmt.Sprintf("%d:%d", to, (to+7)%65536))
+				}
+			}
+		}
 		c.Case(Verdict, "glyf.fix", arg+" map="+strings.Join(m, ";"), true)
+		c.Case(Direct, "glyf.fixpure", arg+" map="+strings.Join(m, ";"), true)
 	}
 	// malformed stream: mutate glyf, loca or the format
 	gb, lb := mustHex(gl), mustHex(loca)
@@ -872,8 +944,119 @@ func glyfSimpleCase(c *Ctx, nc int, enc []byte, class string) {
 	c.Stat("simple_"+class, glyfOutcomeClass(out))
 }
 
+// glyfBigSimple is a one-contour simple glyph whose encoding (header included) is exactly size
+// bytes (even, >= 2000): points with long x and y deltas, run-length flags, and an instruction
+// block that takes up the remainder.  Unlike glyfFillerGlyph it can exceed 65546 bytes.
+func glyfBigSimple(r *Rng, size int) *glyf.Glyph {
+	n := (size - 1000) / 4
+	if n > 65536 {
+		n = 65536
+	}
+	var fl []byte
+	for i := 0; i < n; {
+		l := n - i
+		if l > 256 {
+			l = 256
+		}
+		if l >= 2 {
+			fl = append(fl, 0x01|0x08, byte(l-1))
+		} else {
+			fl = append(fl, 0x01)
+		}
+		i += l
+	}
+	il := size - 10 - 2 - 2 - len(fl) - 4*n
+	if il > 65535 { // more bytes than 65536 points and the instructions hold
+		panic("glyfBigSimple: size too large")
+	}
+	enc := []byte{byte((n - 1) >> 8), byte(n - 1), byte(il >> 8), byte(il)}
+	enc = append(enc, r.Bytes(il)...)
+	enc = append(enc, fl...)
+	for k := 0; k < 2*n; k++ { // x deltas, then y deltas, each a small signed 16-bit value
+		v := r.Range(-3, 3)
+		enc = append(enc, byte(uint16(v)>>8), byte(uint16(v)))
+	}
+	return &glyf.Glyph{Rect16: glyfRandBBox(r), Data: glyf.SimpleGlyph{NumContours: 1, Encoded: enc}}
+}
+
+// glyfSmallSetsAtFormatBoundary: glyph sets of 0, 1 and 2 glyphs whose glyf size is just below,
+// at and above the short-loca limit of the code (0xFFFF) and of the format (0x1FFFE): loca tables
+// of exactly one, two and three entries in both formats.
+func glyfSmallSetsAtFormatBoundary(c *Ctx) {
+	r := c.Rng
+	glyfSetCase(c, glyf.Glyphs{}, false)
+	glyfSetCase(c, glyf.Glyphs{nil}, true)
+	glyfSetCase(c, glyf.Glyphs{nil, nil}, true)
+	sizes := []int{65532, 65534, 65536, 65538, 131068, 131070, 131072, 131074}
+	if c.Tier == "thorough" {
+		sizes = append(sizes, 65534+2*r.Range(-3, 3), 131070+2*r.Range(-3, 3), 2*r.Range(32768, 70000))
+	}
+	one := func(size int) *glyf.Glyph {
+		if size <= 65546 && r.Bool() {
+			return glyfFillerGlyph(r, size)
+		}
+		return glyfBigSimple(r, size)
+	}
+	for _, sz := range sizes {
+		c.Stat("small_set_boundary", fmt.Sprintf("1 glyph, %d bytes", sz))
+		glyfSetCase(c, glyf.Glyphs{one(sz)}, true)
+		// two glyphs: a split of the same total; the nil glyph first, last, or none
+		a := 2 * r.Range(1000, sz/2-1000)
+		c.Stat("small_set_boundary", fmt.Sprintf("2 glyphs, %d bytes", sz))
+		switch r.Intn(3) {
+		case 0:
+			glyfSetCase(c, glyf.Glyphs{one(a), one(sz - a)}, true)
+		case 1:
+			glyfSetCase(c, glyf.Glyphs{nil, one(sz)}, true)
+		case 2:
+			glyfSetCase(c, glyf.Glyphs{one(sz), nil}, true)
+		}
+	}
+}
+
+// glyfLocaLengthCases: decodeLoca at every loca length 0..13 in both formats (and an unsupported
+// one): all-zero offsets (every glyph empty) and offsets delimiting one small glyph.
+func glyfLocaLengthCases(c *Ctx) {
+	r := c.Rng
+	g := glyf.Glyphs{glyfGenSimpleGlyph(c)}.Encode().GlyfData
+	for _, f := range []int{0, 1, 2} {
+		for n := 0; n <= 13; n++ {
+			zero := make([]byte, n)
+			for _, gd := range [][]byte{nil, g} {
+				res := c.Case(Verdict, "glyf.decode", fmt.Sprintf("fmt=%d loca=%s glyf=%s", f, hx(zero), hx(gd)), n >= 4)
+				c.Stat("loca_length_cases", fmt.Sprintf("fmt=%d:%s", f, glyfOutcomeClass(res)))
+			}
+			// offsets 0, len(g), len(g), ...: glyph 0 is g, the others are empty
+			l := make([]byte, n)
+			w := 2
+			if f != 0 {
+				w = 4
+			}
+			for k := 1; k*w+w <= n; k++ {
+				v := len(g)
+				if f == 0 {
+					v /= 2
+				}
+				for b := 0; b < w; b++ {
+					l[k*w+w-1-b] = byte(v >> (8 * b))
+				}
+			}
+			if n%w != 0 && n > 0 && r.Bool() {
+				l[n-1] = byte(r.U64())
+			}
+			args := fmt.Sprintf("fmt=%d loca=%s glyf=%s", f, hx(l), hx(g))
+			res := c.Case(Verdict, "glyf.decode", args, n >= 4)
+			c.Case(Direct, "glyf.fixed", args, strings.HasPrefix(res, "ok:"))
+			c.Stat("loca_length_cases", fmt.Sprintf("fmt=%d:%s", f, glyfOutcomeClass(res)))
+		}
+	}
+}
+
 func areaGlyf(c *Ctx) {
 	r := c.Rng
+	// --- 0, 1, 2 glyphs around the loca format switch; loca tables of every small length
+	glyfSmallSetsAtFormatBoundary(c)
+	glyfLocaLengthCases(c)
 	// --- glyph sets
 	nSets := c.N / 4
 	targets := []int{65534, 65536, 131070, 131072}
